@@ -19,7 +19,7 @@ def generate(rng, tier):
     cases = []
     thorough = tier == "thorough"
     specs = specs_pool(rng, 30 if thorough else 8)
-    for k in range(2500 if thorough else 350):
+    for k in range(2500 * TH if thorough else 350):
         big = (k % 9 == 0)
         sp, data, kind, _ = gen_stream(rng, specs, big=big, p_valid=0.7, p_mut=0.2)
         if kind in ("mutated", "random") and len(data) > 60000:
